@@ -43,9 +43,7 @@ impl Loader<anyhow::Error> for Mem {
     }
 }
 
-fn main() {
-    let mut input = String::new();
-    std::io::stdin().read_to_string(&mut input).unwrap();
+fn one(input: &str) {
     let mut files = HashMap::new();
     let mut first = None;
     let mut cur: Option<(String, String)> = None;
@@ -71,5 +69,25 @@ fn main() {
     match oal_compiler::module::load(&mut mem, &main) {
         Ok(mods) => println!("OK {}", mods.len()),
         Err(e) => println!("ERR {e}"),
+    }
+}
+
+/// Several cases in one process: each starts with a line `##### <name>`; the same line is echoed before the
+/// case's output; a panic inside a case is caught and printed as `PANIC`.
+fn main() {
+    let mut input = String::new();
+    std::io::stdin().read_to_string(&mut input).unwrap();
+    if !input.starts_with("##### ") {
+        one(&input);
+        return;
+    }
+    std::panic::set_hook(Box::new(|_| {}));
+    for case in input.split("##### ").skip(1) {
+        let (name, body) = case.split_once('\n').unwrap_or((case, ""));
+        println!("##### {}", name.trim());
+        let body = body.to_owned();
+        if std::panic::catch_unwind(move || one(&body)).is_err() {
+            println!("PANIC");
+        }
     }
 }
